@@ -100,7 +100,8 @@ class ErrorHandling:
 
         expected = {}  # value: token
 
-        for token_name in self.expected_tokens:
+        # sorted: the order of a row of the parsing table depends on the hash seed of the process
+        for token_name in sorted(self.expected_tokens):
             value = getattr(self.lexer, token_name, None)
             if token_name == 'ID':
                 # a lot of other tokens could be ID
